@@ -936,6 +936,46 @@ def r01_11(ctx):
         ctx.ob("R01.11", f"deserialize_value:parse#{k}", ok, f.loc(t["ln"]), why if ok else why + ": the reader index can pass the end of the input (panic in remain(), spurious EOF)")
 
 
+def r01_12(ctx):
+    """trailing_zeros() of a bitmap is used as an offset only where the bitmap is known to be non-zero
+    (trailing_zeros(0) is the bit width: the cursor would jump over a byte that was never looked at)"""
+    prog = ctx.prog()
+    from ..analysis import bool_switch_edges
+    n = 0
+    seen = collections.Counter()
+    for f in prog.fns.values():
+        if f.crate != "sonic_rs":
+            continue
+        for b, t in f.calls():
+            if not callee_is(t, "trailing_zeros"):
+                continue
+            n += 1
+            l = op_local(t["args"][0])
+            sl, _ = backward_slice(f, [l], through_calls=False) if l is not None else (set(), [])
+            ok = False
+            for bb, i, s in f.assigns():
+                rv = s["rv"]
+                if rv["k"] == "binop" and rv["op"] in ("Ne", "Eq") and (op_int(rv["b"]) == 0 or op_int(rv["a"]) == 0) and f.dominates(bb, b):
+                    o = rv["a"] if op_int(rv["b"]) == 0 else rv["b"]
+                    ol = op_local(o)
+                    if ol is None:
+                        continue
+                    if not ((backward_slice(f, [ol], through_calls=False)[0] | {ol}) & (sl | {l})):
+                        continue
+                    e = bool_switch_edges(f, s["lhs"][0])
+                    if not e:
+                        continue
+                    nz = e[0] if rv["op"] == "Ne" else e[1]
+                    z = e[1] if rv["op"] == "Ne" else e[0]
+                    if b in f.reachable_from(nz) and b not in f.reachable_from(z, avoid={nz}):
+                        ok = True
+            seen[short(f.id)] += 1
+            ctx.ob("R01.12", f"{short(f.id)}#{seen[short(f.id)]}", ok, f.loc(t["ln"]),
+                   "trailing_zeros() is taken on the non-zero edge of a test of the same bitmap" if ok else
+                   "trailing_zeros() of a bitmap that may be zero is used as an offset: for an all-clear bitmap the cursor advances by the bit width plus one and skips a byte unseen")
+    ctx.floor("R01.12", "trailing_zeros sites", n, 6)
+
+
 def r01_8(ctx):
     """no leak on an error path of the bitwise hand-over (shared with C16: R16.2)"""
     from .c16 import r16_2
@@ -957,4 +997,4 @@ def r01_s(ctx):
     ctx.include(c16.r16_6, 'R01.S')
 
 
-RULES = [("R01.1", r01_1), ("R01.2", r01_2), ("R01.2b", r01_2b), ("R01.3", r01_3), ("R01.4", r01_4), ("R01.5", r01_5), ("R01.6", r01_6), ("R01.7", r01_7), ("R01.8", r01_8), ("R01.9", r01_9), ("R01.10", r01_10), ("R01.11", r01_11), ("R01.W", r01_w), ("R01.S", r01_s)]
+RULES = [("R01.1", r01_1), ("R01.2", r01_2), ("R01.2b", r01_2b), ("R01.3", r01_3), ("R01.4", r01_4), ("R01.5", r01_5), ("R01.6", r01_6), ("R01.7", r01_7), ("R01.8", r01_8), ("R01.9", r01_9), ("R01.10", r01_10), ("R01.11", r01_11), ("R01.12", r01_12), ("R01.W", r01_w), ("R01.S", r01_s)]
